@@ -220,6 +220,8 @@ func (e *CEnv) eval(ex *CExpr) Value {
 				s = SBytes
 			case "bool":
 				s = SBool
+			case "Ord":
+				s = SArr(SInt, SInt)
 			default:
 				if strings.HasPrefix(v.Type, "bv") {
 					var w int
@@ -256,6 +258,18 @@ func (e *CEnv) ident(name string) Value {
 		return TEps
 	case "nil":
 		return nilMarker{}
+	case "rangeord":
+		if e.st.LastOrd != nil {
+			return e.st.LastOrd
+		}
+		cfail("rangeord: no map range in scope")
+	case "rangepos":
+		if e.st.LastPos != nil {
+			if v, ok := e.st.Heap[e.st.LastPos]; ok {
+				return v
+			}
+		}
+		cfail("rangepos: no map range in scope")
 	case "alloc":
 		if e.st.Alloc != nil {
 			return e.st.Alloc
@@ -911,6 +925,32 @@ func (e *CEnv) call(ex *CExpr) Value {
 		// rep(D, w, lo, hi): D array of Bytes
 		need(4)
 		return App("rep", SBytes, ev(0).(*Term), intArg(1), intArg(2), intArg(3))
+	case "mapdom":
+		need(2)
+		mv := e.deref(ev(0)).(*MapVal)
+		mc := e.x.mapC(e.st, mv.Obj)
+		k := e.x.keyTerm(ev(1), mc.Dom.S.Idx)
+		return And(Not(mc.Nil), Select(mc.Dom, k))
+	case "tlvser":
+		need(4)
+		mv := e.deref(ev(0)).(*MapVal)
+		return tser(e.x.mapC(e.st, mv.Obj), ev(1).(*Term), intArg(2), intArg(3))
+	case "isperm":
+		need(2)
+		mv := e.deref(ev(1)).(*MapVal)
+		return e.x.isPerm(ev(0).(*Term), e.x.mapC(e.st, mv.Obj))
+	case "tlvwf":
+		need(1)
+		mv := e.deref(ev(0)).(*MapVal)
+		return e.x.tlvWF(e.x.mapC(e.st, mv.Obj))
+	case "mapeq":
+		need(2)
+		a := e.deref(ev(0)).(*MapVal)
+		b := e.deref(ev(1)).(*MapVal)
+		return e.x.mapEq(e.x.mapC(e.st, a.Obj), e.x.mapC(e.st, b.Obj))
+	case "ordinv":
+		need(2)
+		return App("ordinv", SInt, ev(0).(*Term), ev(1).(*Term))
 	case "cmdval":
 		need(1)
 		iv, ok := ev(0).(*IfaceVal)
